@@ -5,7 +5,7 @@
 # pkverif, writes /verif/fuzz/last-<Cxx>.json (merged into the evidence by ./check). Exit 0 ok / 1 violation /
 # 3 stage skipped (fuzz build unavailable).
 ID="$1"; RUNS="${2:-200000}"; SEED="${3:-0}"
-HERE=/verif
+HERE="$(cd "$(dirname "${BASH_SOURCE[0]}")/.." && pwd)"
 cd $HERE/fuzz || exit 3
 case "$ID" in
   C10) T="psl";; C12) T="authdata";; C13) T="ctap_cbor";; C14) T="webauthn_json";;
